@@ -100,6 +100,7 @@ func scenarioExprsW(thorough bool, wf int) []string {
 var historyDocs = univ.Js(
 	`{"a":[{"k":2,"t":0},{"k":1,"t":1},{"k":3,"t":2}],"b":["b","a"]}`, `{"a":[3,1,2],"b":[2,1]}`, `[3,1,2]`, `[{"k":"b"},{"k":"a"}]`,
 	`{"a":{"b":{"c":1}},"b":2}`, `null`, `{"a":"x","b":"y"}`, `[{"k":1},{"k":"a"}]`,
+	`{"c":1}`, `{"d":[2],"a":[1,2],"b":[1,3]}`,
 )
 
 func resKey(res interface{}, err error, pn *impl.Panic) string {
@@ -110,7 +111,11 @@ func resKey(res interface{}, err error, pn *impl.Panic) string {
 		return "ERROR"
 	}
 	if jsonDefectShallow(res) {
-		return "VALUE " + model.Show(res)
+		// Go-typed data in the result: render through encoding/json (never print pointer addresses)
+		if js, jerr := json.Marshal(res); jerr == nil {
+			return "VALUE(go) " + string(js)
+		}
+		return fmt.Sprintf("VALUE(go) of type %T", res)
 	}
 	return "VALUE " + model.Canon(res)
 }
@@ -361,6 +366,34 @@ func workC13(c *shardCtx) {
 			}
 		}
 		rec(nil)
+		// long histories ("pumped"): the same call several hundred times, then every document again
+		// (budgets, counters and caches that only overflow or wrap after many calls)
+		reps := 600
+		if c.thorough() {
+			reps = 3000
+		}
+		for di := 0; di < nd && !failed; di++ {
+			if (ei+di)%4 != 0 && !c.thorough() {
+				continue // quick tier: a quarter of the (expression, document) pairs
+			}
+			jp := fresh()
+			d := model.Copy(historyDocs[di])
+			for k := 0; k < reps; k++ {
+				impl.Search(jp, d)
+			}
+			c.add("calls", int64(reps))
+			c.add("long_histories", 1)
+			for dj := 0; dj < nd; dj++ {
+				res, err, pn := impl.Search(jp, model.Copy(historyDocs[dj]))
+				if k := resKey(res, err, pn); k != ref[dj] {
+					c.report(harness.Violation{Kind: "wrong-value", Signature: "history-dependent:" + text,
+						Input:    map[string]interface{}{"expression": text, "history": fmt.Sprintf("%d searches of document %d, then document %d", reps, di, dj), "document": historyDocs[dj]},
+						Expected: ref[dj], Observed: k})
+					failed = true
+					break
+				}
+			}
+		}
 		// same document object re-used across calls (combined effect with C06)
 		shared := make([]interface{}, nd)
 		for i, d := range historyDocs {
@@ -448,8 +481,27 @@ func workC13(c *shardCtx) {
 			}
 			p := jmespath.NewParser()
 			var got string
-			for _, k := range hh {
-				got = safeParse(p, X[k])
+			asts := make([]jmespath.ASTNode, len(hh))
+			oks := make([]bool, len(hh))
+			for hi, k := range hh {
+				func() {
+					defer func() {
+						if r := recover(); r != nil {
+							got = fmt.Sprint("PANIC ", r)
+						}
+					}()
+					ast, err := p.Parse(X[k])
+					got = parseKey(ast, err)
+					asts[hi], oks[hi] = ast, err == nil
+				}()
+			}
+			// an AST handed out earlier must not change when the parser is used again
+			for hi, k := range hh {
+				if oks[hi] && jmespath.VerifRenderAST(asts[hi]) != freshKey[k] {
+					c.report(harness.Violation{Kind: "state-mutated", Signature: fmt.Sprintf("parser-ast-overwritten:%q", X[k]),
+						Input:    map[string]interface{}{"expression": X[k], "parsed_afterwards_on_the_same_parser": histTexts(X, hh[hi+1:])},
+						Expected: "the AST returned for the expression stays " + freshKey[k], Observed: jmespath.VerifRenderAST(asts[hi])})
+				}
 			}
 			c.add("parser_histories", 1)
 			if got != freshKey[xi] {
@@ -537,6 +589,7 @@ func finishC13(r *harness.Run, k map[string]int64, notes map[string]interface{})
 	r.Note("expressions", k["expressions"])
 	r.Note("expressions_closed_at_one_state", k["closed_at_one_state"])
 	r.Note("search_histories_replayed", k["histories"])
+	r.Note("long_histories_of_600_calls", k["long_histories"])
 	r.Note("parser_states", k["parser_states"])
 	r.Note("parser_histories_replayed", k["parser_histories"])
 	r.Note("process_global_call_sequences", k["global_histories"])
